@@ -2,6 +2,8 @@
 //! verif-harness: runs the real aiken/uplc code next to the Lean models.
 //!   verif-harness <sub-command> [--seed N] [--tier quick|thorough] [--out file] [--replay file]
 mod aik;
+mod c01;
+mod c02;
 mod c03;
 mod c05;
 mod c08;
@@ -12,9 +14,11 @@ mod c16;
 mod c18;
 mod c20;
 mod cek;
+mod comp;
 mod driver;
 mod flatgen;
 mod gen;
+mod mini;
 mod prng;
 mod report;
 mod sx;
@@ -64,7 +68,9 @@ fn main() {
         i += 1;
     }
     // panics of the code under test are outcomes; keep stderr quiet
-    std::panic::set_hook(Box::new(|_| {}));
+    if std::env::var("VERIF_SHOW_PANICS").is_err() {
+        std::panic::set_hook(Box::new(|_| {}));
+    }
     let rep = match sub.as_str() {
         "c15-names" => c15::names(&ctx),
         "c03-cek" => c03::run(&ctx),
@@ -77,6 +83,10 @@ fn main() {
         "c12-probe" => c12::probe(&ctx),
         "c12-corr" => c12::corr(&ctx),
         "c18-apply" => c18::apply(&ctx),
+        "c01-source" => c01::run(&ctx),
+        "c02-optimiser" => c02::run(&ctx),
+        "c02-show" => c02::show(&ctx),
+        "c02-one" => c02::one(&ctx),
         other => {
             eprintln!("unknown sub-command {other}");
             std::process::exit(2);
